@@ -9,7 +9,8 @@ LEVEL_NOTE = ('the oracle is the abstract tree the source was rendered from (bou
               '(no @variables, no attribute/pseudo combinations beyond pairs, calc() without parentheses, media feature values of one component) and to sheets larger '
               'than the bound; projection uses public accessors only (cssRules, selectorList + Selector.seq, style.children(), Property.name/priority/propertyValue, '
               'Value.type/value/dimension/uri/colour channels + seq of functions, media items, href, prefix/namespaceURI, selectorText of @page, margin)')
-TECHNIQUE = 'bounded run-time contracts on the real parser over exhaustively enumerated abstract sheets x spellings (no proof obligations; the bound is stated in the evidence)'
+TECHNIQUE = ('VC generation + z3 on the real Base._tokensupto2 (the bracket-matching carve of rules and blocks: balance and minimality for every stream); the statement as a whole is decided by '
+             'bounded run-time contracts on the real parser over exhaustively enumerated abstract sheets x spellings (bound in the evidence)')
 DESIGN_REF = 'DESIGN.md section 3, C02; Appendix C "Abstract sheets"'
 
 
@@ -17,3 +18,9 @@ def bounded(ctx):
     from bounded import c02
     c02.roundtrip(ctx)
     c02.witnesses(ctx)
+
+
+# T1 (PyVC): Base._tokensupto2 - for every token stream, every mode flag, with and without a start token, the call consumes exactly up to and
+# including the first token at which all nesting levels are zero and the token is an end token of the mode (or EOF / end of the stream); the
+# result is the start token plus exactly the consumed tokens.  26 targets, ~56 000 obligations, under a minute.
+T1 = [('contracts.util_tokensupto2', None)]
